@@ -12,6 +12,10 @@
  *   configure(B: other devices) start stop [get_state] shutdown; protocol monitors.
  * PROG 3 (C09): one stream, camera fault at frame f or storage fault at append g (symbolic),
  *   stop or abort, then a fault-free acquisition.
+ * PROG 4 (C08): one stream; configure(A) [start stop]; configure(B) during which the driver's
+ *   open of the camera or of the storage device FAILS (which one is symbolic); [get_configuration];
+ *   configure(A | B) without fault; start stop; shutdown.  The device that was released for the
+ *   failed switch must not be used or closed again.
  */
 #include "verif.h"
 #include "plat_seq.h"
@@ -83,9 +87,18 @@ verif_thread_tag(const struct thread* t)
     return 99;
 }
 static int running_bodies;
+static int in_abort;
 void
 verif_on_thread_start(int tag)
 {
+    /* C07 (abort reaches a sleeping writer): a source body that has not finished when abort is
+     * called may be asleep in channel_write_map on a full ring that nothing will drain (the client
+     * holds its region, or the sink is gone).  The refusal of writes is what wakes it (C03), and
+     * the writer re-checks the flag under the lock when it wakes: the refusal must therefore still
+     * stand when that body gets to run, i.e. until the source thread has exited.  (In the coarse
+     * model the body of a not-yet-finished source runs at its join.) */
+    if (tag % 10 == 1 && in_abort)
+        VASSERT(RT->video[tag / 10].sink.in.is_accepting_writes == 0, "C07: writes are accepted again before the source thread has exited during abort (a writer woken from a full ring goes back to sleep: abort hangs)");
     /* C10 (flush hand-over): the sink may be told to stop only after the filter thread has finished;
      * in the coarse model a filter body that starts with sink.is_stopping already set means the
      * source raised it without waiting for the filter */
@@ -104,7 +117,6 @@ static void reporter(int e, const char* f, int l, const char* fn, const char* m)
  * source thread and after writes are refused; otherwise the source can deliver that frame, loop,
  * and block again on a trigger that never comes (source unit + C18 give: stop flag set and then
  * a trigger => the source thread exits). */
-static int in_abort;
 static void
 on_trigger(int cam)
 {
@@ -371,6 +383,74 @@ main(void)
     COVER(started && two);
     COVER(CAM[1].opens >= 1 && STO[1].starts >= 1);
 #endif
+    WITNESS_END();
+#elif PROG == 4
+    memset(&props, 0, sizeof props);
+    fill_props(0, 0, 0, 1, 0);
+    VASSERT(acquire_configure(rt, &props) == AcquireStatus_Ok, "configure failed");
+    STO[0].expect_cam = 0; STO[1].expect_cam = 1; STO[2].expect_cam = 2;
+    /* OFM fixes the choices per harness instance: bit0 first acquisition, bit1 which open fails,
+     * bit2 switch camera, bit3 switch storage, bit4 get_configuration, bit5 configure back */
+#ifdef OFM
+#define OFB(i) ((OFM >> (i)) & 1)
+#else
+#define OFB(i) ND(bool_t)
+#endif
+    bool_t ran_first = OFB(0);
+    if (ran_first) {
+        VASSERT(acquire_start(rt) == AcquireStatus_Ok, "start failed");
+        STO[0].expect_acq = CAM[0].acq;
+        VASSERT(acquire_stop(rt) == AcquireStatus_Ok, "stop failed");
+    }
+    /* switch devices; one of the driver's open calls during this configure fails */
+    uint8_t which = OFB(1), swcam = OFB(2), swsto = OFB(3);
+    VASSUME(which < 2 && (swcam || swsto));
+    mock_open_fail_at = mock_open_calls + which;
+    memset(&props, 0, sizeof props);
+    fill_props(0, swcam ? 1 : 0, swsto ? 1 : 0, 1, 0);
+    int opens_before = mock_open_calls;
+    enum AcquireStatusCode rc1 = acquire_configure(rt, &props);
+    int fault_hit = mock_open_calls > mock_open_fail_at;
+    mock_open_fail_at = -1;
+    /* (acquire_configure reports Ok by design even when a stream could not be configured: the stream is
+     * then simply not valid and the state says so; only the state is checked here) */
+    (void)rc1;
+    if (fault_hit) VASSERT(acquire_get_state(rt) != DeviceState_Running, "C08: Running reported after a configure whose device open failed");
+    VASSERT(mock_protocol_ok(), "C08: device protocol violated by a configure whose device open failed");
+    if (OFB(4)) {
+        struct AcquireProperties got;
+        memset(&got, 0, sizeof got);
+        acquire_get_configuration(rt, &got);
+        VASSERT(mock_protocol_ok(), "C08: get_configuration used a released device");
+    }
+    /* fault-free configure: back to the first devices, or again to the new ones */
+    uint8_t back = OFB(5);
+    memset(&props, 0, sizeof props);
+    int c2 = back ? 0 : (swcam ? 1 : 0), s2 = back ? 0 : (swsto ? 1 : 0);
+    fill_props(0, c2, s2, 1, 0);
+    VASSERT(acquire_configure(rt, &props) == AcquireStatus_Ok, "C08: fault-free configure after a failed device switch failed");
+    STO[s2].expect_cam = c2;
+    VASSERT(mock_protocol_ok(), "C08: device protocol violated by the configure after a failed device switch");
+    VASSERT(acquire_start(rt) == AcquireStatus_Ok, "start after failed switch failed");
+    STO[s2].expect_acq = CAM[c2].acq;
+    VASSERT(acquire_stop(rt) == AcquireStatus_Ok, "stop after failed switch failed");
+    VASSERT(STO[s2].frames_this_run == 1 && STO[s2].tag_errors == 0, "C04/C08: acquisition after a failed device switch incomplete");
+    VASSERT(mock_protocol_ok(), "C08: device protocol violated");
+    acquire_shutdown(rt);
+    for (int i = 0; i < NCAM; ++i) {
+        VASSERT(CAM[i].opens == CAM[i].closes && !CAM[i].open, "C08: camera not closed exactly once by shutdown at the latest");
+        VASSERT(STO[i].opens == STO[i].closes && !STO[i].open, "C08: storage not closed exactly once by shutdown at the latest");
+        VASSERT(CAM[i].starts == CAM[i].stops && STO[i].starts == STO[i].stops, "C08: device not stopped exactly once per start");
+    }
+    VASSERT(mock_protocol_ok(), "C08: device protocol violated at shutdown");
+#ifndef OFM
+    COVER(fault_hit && swsto && which == 0 && !swcam);
+    COVER(fault_hit && swcam && which == 0);
+    COVER(fault_hit && which == 1 && back);
+#else
+    COVER(fault_hit || OFB(1));
+#endif
+    (void)opens_before;
     WITNESS_END();
 #endif
     return 0;
